@@ -464,6 +464,13 @@ func (w *world) applyAll(o *op) []*viol {
 			out = append(out, v)
 		}
 	}()
+	// C17 (machine part), judged independently as well: a state the machine creates itself (Init)
+	// carries the ID of its parameters and version 0
+	if strings.HasPrefix(o.name, "Init(") && w.m.Phase() == channel.InitSigning && before.Phase == channel.InitActing {
+		if s := w.m.StagingState(); s == nil || s.ID != w.m.Params().ID() || s.Version != 0 {
+			out = append(out, &viol{"C17", "init-state-id", "the state created by Init does not carry Params().ID() / version 0"})
+		}
+	}
 	return out
 }
 
@@ -518,12 +525,6 @@ func (w *world) apply(o *op) (v *viol) {
 			if w.rStg != "" && (st[i] != '-') != has {
 				return &viol{"C09", "post-sigs", fmt.Sprintf("%s from %v: staged signature slots %s, reference %v", o.name, before.Phase, st, w.rSigs)}
 			}
-		}
-	}
-	// C17 (machine part): every state the machine holds carries the ID of its parameters... for states it created itself (Init).
-	if strings.HasPrefix(o.name, "Init(") && err == nil {
-		if s := w.m.StagingState(); s == nil || s.ID != w.m.Params().ID() || s.Version != 0 {
-			return &viol{"C17", "init-state-id", "state created by Init does not carry Params().ID() / version 0"}
 		}
 	}
 	return nil
